@@ -124,6 +124,34 @@ def gen_path_cases(tier, seed):
     return cases
 
 
+def gen_rule_boundary_cases(tier, seed):
+    """a written path that IS a configured entry (project parent, project root, included, excluded, history, editor-only),
+    or one of its prefixes, with path lengths sweeping across the sizes of the buffer the path is read into (32, 64,
+    128 with the configured guess): every scan that looks for what follows the matched entry starts at the end of the
+    string"""
+    rng = random.Random(seed + 3)
+    cases = []
+    n = 0
+    for L in list(range(1, 14)) + list(range(40, 48)) + list(range(104, 112)) + ([] if tier == "quick" else list(range(14, 40))):
+        for kind in ("project_parents", "project_roots", "included", "excluded", "history", "cluded"):
+            name = "p" * L
+            p = WATCH + "/" + name
+            kw = dict(deb=0)
+            kw[kind] = [p] if rng.random() < 0.5 else [name]      # absolute, or relative to the common parent
+            s = wc.Script(log=False)
+            wc.setup_world(s, wc.base_cfg(**kw))
+            s.put(p, "a regular file where the entry points")
+            s.start()
+            s.exec(3, X + "/vim")
+            s.write(3, p)
+            s.write(4, p)
+            s.timeout()
+            s.add("stop")
+            cases.append(("b%d" % n, s.text(), {"compare": False}))
+            n += 1
+    return cases
+
+
 def san_report(stderr):
     return "ERROR: AddressSanitizer" in stderr or "runtime error:" in stderr or "LeakSanitizer" in stderr
 
@@ -143,7 +171,7 @@ def main(rep):
         rep.violation("harness-build", {"what": "sanitizer harness does not build", "output": err2[-2000:]}, found_input=False)
         found = True
     else:
-        groups = [("elf", gen_elf_cases(rep.tier, rep.seed)), ("queue", gen_queue_cases(rep.tier, rep.seed)), ("paths", gen_path_cases(rep.tier, rep.seed))]
+        groups = [("elf", gen_elf_cases(rep.tier, rep.seed)), ("queue", gen_queue_cases(rep.tier, rep.seed)), ("paths", gen_path_cases(rep.tier, rep.seed)), ("rule_boundaries", gen_rule_boundary_cases(rep.tier, rep.seed))]
         dist = {}
         for gname, cases in groups:
             dist[gname] = len(cases)
@@ -152,7 +180,7 @@ def main(rep):
                 continue
             # one process per shard; a sanitizer report aborts the process: find the culprit by its case id
             # very long paths are slow in the list-based model and are not compared with it anyway
-            impl, model, problems = vlib.correspond(exe_impl, exe_model if gname != "paths" else None, "world",
+            impl, model, problems = vlib.correspond(exe_impl, exe_model if gname not in ("paths", "rule_boundaries") else None, "world",
                                                     [(c, s) for c, s, _ in cases], sandbox=True)
             for p in problems:
                 if "implementation driver exited" in p:
@@ -284,7 +312,7 @@ def main(rep):
     rep.cov["rule"] = ("harness rebuilt with -fsanitize=address,undefined (no recovery): executables named like an editor whose content is a valid ELF image, the image cut at many "
                        "offsets, every header / program-header field set to boundary values (0, sizes +-1, 2^31-1, 2^63-1, 2^63, 2^64-1), an interpreter without NUL, random "
                        "corruptions; queue directories with hand-written links (relative targets, '/', long flag prefixes, other roots, shorter than the common parent, project "
-                       "flags with wrong offsets, names with gaps / leading zeros / non-numeric) under several common-parent offsets; paths up to PATH_MAX; every argv up to length 3 (4); the real main() with watch roots that resolve, do not resolve, are empty or over-long; "
+                       "flags with wrong offsets, names with gaps / leading zeros / non-numeric) under several common-parent offsets; paths up to PATH_MAX; written paths that coincide with a configured entry of every kind, with lengths sweeping across the path buffer's sizes; every argv up to length 3 (4); the real main() with watch roots that resolve, do not resolve, are empty or over-long; "
                        "any sanitizer report or abort is a violation, and the processed-or-rejected outcome is compared with the model")
     vlib.conclude_proofs(rep, found)
 
